@@ -118,6 +118,13 @@ pub fn prangemax(case: &Case, eff: &mut Eff, f: impl FnOnce(ParEmpty<<std::ops::
     f((1usize..usize::MAX).into_par())
 }
 
+/// `1..2^e + 10` with e = `case.spare`: more elements than an i32 (e = 31) or a u32 (e = 32) can count; only for
+/// closure-free terminals (the reference is the length itself)
+pub fn prangebig(case: &Case, eff: &mut Eff, f: impl FnOnce(ParEmpty<<std::ops::Range<usize> as IntoPar>::ConIter>) -> R) -> R {
+    *eff = Vec::new();
+    f((1usize..(1usize << case.spare) + 10).into_par())
+}
+
 pub fn piter(case: &Case, eff: &mut Eff, f: impl FnOnce(ParEmpty<<LogIter as IterIntoPar<LogIter>>::ConIter>) -> R) -> R {
     *eff = elems_of_iter(case);
     f(LogIter::new(&case.input, case.known, case.endless).par())
